@@ -34,11 +34,13 @@ type rankIn struct {
 	N       int      `json:"n"`        // minersNum handed to SetRandomSeed; -1 = via chain (pool size)
 	Shuf1   []int    `json:"shuffle1"` // order of the slice handed to GetMinersByRank on A
 	Shuf2   []int    `json:"shuffle2"`
+	Pre     []seedOp `json:"pre,omitempty"` // earlier seed calls on node A's round only (other seed and/or miner count)
 }
 
 type seedOp struct {
 	Notarized bool  `json:"notarized"`
 	Seed      int64 `json:"seed"`
+	N         int   `json:"n,omitempty"` // miner count of this call (0 = the history's default)
 }
 type seedIn struct {
 	N   int      `json:"n"`
@@ -125,7 +127,7 @@ type rankObs struct {
 
 // observe one "node": its own pool (built in `order`), its own round, the seed set through the
 // chain when n < 0, else directly on the round with minersNum n.
-func observe(in *rankIn, order, shuf []int) rankObs {
+func observe(in *rankIn, order, shuf []int, pre []seedOp) rankObs {
 	p := buildPool(in.PubKeys, order)
 	var o rankObs
 	nodes := p.CopyNodes()
@@ -135,7 +137,24 @@ func observe(in *rankIn, order, shuf []int) rankObs {
 	}
 	r := round.NewRound(7)
 	o.ranks = map[string]int{}
-	if in.N < 0 {
+	for _, pc := range pre {
+		if pc.Notarized {
+			r.SetRandomSeedForNotarizedBlock(pc.Seed, pc.N)
+		} else {
+			r.SetRandomSeed(pc.Seed, pc.N)
+		}
+	}
+	if len(pre) > 0 {
+		// the call for the current (seed, miner set) arrives with a notarized block
+		n := in.N
+		if n < 0 {
+			n = p.Size()
+		}
+		r.SetRandomSeedForNotarizedBlock(in.Seed, n)
+		for _, nd := range nodes {
+			o.ranks[nd.ID] = r.GetMinerRank(nd)
+		}
+	} else if in.N < 0 {
 		c := newChain(p)
 		c.AddRound(r)
 		if in.Seed != 0 {
@@ -183,8 +202,8 @@ func sameStrs(a, b []string) bool {
 
 // runRank returns the Coq case, the first oracle failure and whether the case is non-trivial.
 func runRank(in *rankIn) (string, string) {
-	a := observe(in, in.Order1, in.Shuf1)
-	b := observe(in, in.Order2, in.Shuf2)
+	a := observe(in, in.Order1, in.Shuf1, in.Pre)
+	b := observe(in, in.Order2, in.Shuf2, nil)
 	fail := ""
 	set := func(f string) {
 		if fail == "" {
@@ -331,6 +350,25 @@ func genRank(r *vh.Rand, big bool) *rankIn {
 	case 2:
 		in.N = n + r.Range(1, 3)
 	}
+	// node A's round already served an earlier configuration: same seed with another miner count,
+	// another seed with the same count, or both
+	if n > 0 && r.Chance(1, 3) {
+		for k := r.Range(1, 2); k > 0; k-- {
+			pc := seedOp{Notarized: r.Chance(2, 3), Seed: in.Seed, N: n}
+			switch r.Intn(3) {
+			case 0:
+				pc.N = n + []int{-2, -1, 1, 2}[r.Intn(4)]
+			case 1:
+				pc.Seed = in.Seed + 1
+			default:
+				pc.Seed, pc.N = in.Seed^0x55, n+1
+			}
+			if pc.N < 1 {
+				pc.N = 1
+			}
+			in.Pre = append(in.Pre, pc)
+		}
+	}
 	if in.N < 0 || in.N == n || n <= 12 {
 		in.Shuf1 = r.Perm(n)
 		in.Shuf2 = r.Perm(n)
@@ -346,34 +384,74 @@ func genRank(r *vh.Rand, big bool) *rankIn {
 func runSeed(in *seedIn) (string, string) {
 	r := round.NewRound(9)
 	fail := ""
-	ops := make([]string, len(in.Ops))
-	for i, o := range in.Ops {
-		if o.Notarized {
-			r.SetRandomSeedForNotarizedBlock(o.Seed, in.N)
-			ops[i] = "RsSetNotarized " + vh.Z(o.Seed)
-		} else {
-			r.SetRandomSeed(o.Seed, in.N)
-			ops[i] = "RsSet " + vh.Z(o.Seed)
+	set := func(f string) {
+		if fail == "" {
+			fail = f
 		}
-		if r.HasRandomSeed() && fail == "" {
-			want := round.VerifComputeMinerRanks(r.GetRandomSeed(), in.N)
-			if !sameInts(want, r.VerifMinerPerm()) {
-				fail = "ranks-not-from-stored-seed"
+	}
+	ops := make([]string, len(in.Ops))
+	cnt := func(o seedOp) int {
+		if o.N > 0 {
+			return o.N
+		}
+		return in.N
+	}
+	for i, o := range in.Ops {
+		n := cnt(o)
+		// was this call one the round must act on? (SetRandomSeed is ignored once the round has a seed)
+		effective := o.Notarized || !r.HasRandomSeed()
+		if o.Notarized {
+			r.SetRandomSeedForNotarizedBlock(o.Seed, n)
+			ops[i] = fmt.Sprintf("RsSetNotarized %s %d", vh.Z(o.Seed), n)
+		} else {
+			r.SetRandomSeed(o.Seed, n)
+			ops[i] = fmt.Sprintf("RsSet %s %d", vh.Z(o.Seed), n)
+		}
+		if effective {
+			// a fresh round that only ever saw this (seed, count) must hold the same ranks, and they
+			// must be a permutation of 0..n-1 for the current miner count
+			fresh := round.NewRound(9)
+			fresh.SetRandomSeedForNotarizedBlock(o.Seed, n)
+			got := r.VerifMinerPerm()
+			if !sameInts(fresh.VerifMinerPerm(), got) {
+				set("ranks-differ-from-fresh-round-same-seed-and-count")
+			}
+			seen := make([]bool, n)
+			if len(got) != n {
+				set("stored-ranks-not-a-permutation-of-current-miners")
+			}
+			for _, v := range got {
+				if v < 0 || v >= n || seen[v] {
+					set("stored-ranks-not-a-permutation-of-current-miners")
+				} else {
+					seen[v] = true
+				}
+			}
+		}
+		if r.HasRandomSeed() {
+			ok := false
+			for j := 0; j <= i; j++ {
+				if in.Ops[j].Seed == r.GetRandomSeed() && sameInts(round.VerifComputeMinerRanks(in.Ops[j].Seed, cnt(in.Ops[j])), r.VerifMinerPerm()) {
+					ok = true
+				}
+			}
+			if !ok {
+				set("ranks-not-from-stored-seed")
 			}
 		}
 	}
 	perm := r.VerifMinerPerm()
-	permseed := "None"
+	permkey := "None"
 	if perm != nil {
-		permseed = "(Some 123456789)" // a value no op used: the stored permutation belongs to no seed set so far
+		permkey = "(Some (123456789, 0))" // the stored permutation belongs to no call made so far
 		for i := len(in.Ops) - 1; i >= 0; i-- {
-			if sameInts(round.VerifComputeMinerRanks(in.Ops[i].Seed, in.N), perm) {
-				permseed = vh.Some(vh.Z(in.Ops[i].Seed))
+			if sameInts(round.VerifComputeMinerRanks(in.Ops[i].Seed, cnt(in.Ops[i])), perm) {
+				permkey = vh.Some(vh.Pair(vh.Z(in.Ops[i].Seed), fmt.Sprintf("%d", cnt(in.Ops[i]))))
 				break
 			}
 		}
 	}
-	return fmt.Sprintf("RsCase %s %s %s", vh.List(ops), vh.Z(r.GetRandomSeed()), permseed), fail
+	return fmt.Sprintf("RsCase %s %s %s", vh.List(ops), vh.Z(r.GetRandomSeed()), permkey), fail
 }
 
 func sameInts(a, b []int) bool {
@@ -391,8 +469,19 @@ func sameInts(a, b []int) bool {
 func genSeed(r *vh.Rand) *seedIn {
 	in := &seedIn{N: r.Range(8, 20)}
 	seeds := []int64{0, 0, 5, 6, 7, -3, math.MaxInt64, math.MinInt64}
+	varyN := r.Chance(2, 3) // the miner count changes between calls (magic block / view change)
 	for k := r.Range(1, 8); k > 0; k-- {
-		in.Ops = append(in.Ops, seedOp{Notarized: r.Chance(1, 3), Seed: r.Pick64(seeds)})
+		o := seedOp{Notarized: r.Chance(1, 2), Seed: r.Pick64(seeds)}
+		if len(in.Ops) > 0 && r.Chance(1, 3) {
+			o.Seed = in.Ops[len(in.Ops)-1].Seed // the same seed again
+		}
+		if varyN && r.Chance(1, 2) {
+			o.N = in.N + r.Range(-3, 3)
+			if o.N < 1 {
+				o.N = 1
+			}
+		}
+		in.Ops = append(in.Ops, o)
 	}
 	return in
 }
@@ -422,7 +511,6 @@ func (e *benv) snap(bs []*block.Block) []bsnap {
 	}
 	return out
 }
-
 
 func sameSnap(a, b []bsnap) bool {
 	if len(a) != len(b) {
@@ -692,7 +780,7 @@ func main() {
 	rep := vh.NewReport("roundrank", "C35", o)
 	rep.Rule = "rank: 0-9 (sometimes 10-60) miners with random public keys added in two different orders (with repeats) on two " +
 		"node instances, seed from edge values or random, ranks read through chain.SetRandomSeed/SetRoundRank or directly " +
-		"(also with a permutation shorter/longer than the pool); seed: 1-8 SetRandomSeed/SetRandomSeedForNotarizedBlock calls; " +
+		"(also with a permutation shorter/longer than the pool; 1 in 3 with earlier seed calls on one node's round using the same seed and another miner count or another seed); seed: 1-8 SetRandomSeed/SetRandomSeedForNotarizedBlock calls on one round with repeated seeds and changing miner counts, each compared with a fresh round; " +
 		"blocks: 1-25 ops (add/propose/update/best/heaviest) over 2-5 hashes with 1-3 objects each, ranks 0-3 or -1/1074-2000, " +
 		"plus all op sequences over 4 objects up to a bound. Non-trivial = rank: >= 2 miners and different insertion orders; " +
 		"seed: >= 2 ops with a non-zero seed; blocks: an eviction by rank, an ignored known hash and an update that hit; distinct by full input"
@@ -860,7 +948,7 @@ func compactBlocks(in *blocksIn) *blocksIn {
 // restrictRank keeps only the miners with the given indices (renumbered).
 func restrictRank(in *rankIn, keep []int) *rankIn {
 	m := map[int]int{}
-	out := &rankIn{Seed: in.Seed, N: in.N}
+	out := &rankIn{Seed: in.Seed, N: in.N, Pre: in.Pre}
 	for newI, oldI := range keep {
 		m[oldI] = newI
 		out.PubKeys = append(out.PubKeys, in.PubKeys[oldI])
